@@ -209,7 +209,7 @@ impl Prop for C04 {
         96
     }
     fn cases(&self, t: Tier) -> usize {
-        t.pick(4_000, 120_000)
+        t.pick(40_000, 2_000_000)
     }
     fn rayon_threads(&self) -> Option<usize> {
         Some(3)
